@@ -15,30 +15,50 @@
     * cmd_fidelity_store (set, add / remove / replace, .SILENT, flag list)
     * cmd_fidelity_copy, _move (MOVE capability), _move_emulated (COPY + STORE +FLAGS.SILENT (\Deleted) + [UID] EXPUNGE),
       _expunge, _uid_expunge
-    * cmd_fidelity_status, and _status_any_order: for EVERY order in which the client may take the items out of its map
+    * cmd_fidelity_status (and _status_any_order)
     * cmd_fidelity_list (selection options, reference, pattern through readListMailbox, RETURN options incl. STATUS (…))
-    * cmd_fidelity_search: every criteria tree (all key kinds, arbitrarily nested NOT/OR, the ON rule), any return
-      options, CHARSET — by induction over the tree with the reader's nesting budget shown sufficient
+    * cmd_fidelity_search: every criteria tree below the server's nesting limit (all key kinds, nested NOT/OR, the ON
+      rule), any return options, CHARSET — by induction over the tree with the reader's budget shown sufficient
     * cmd_fidelity_fetch: scalar items, BODY/BODYSTRUCTURE, body sections (part path × specifier × header-field
       lists × partial × peek), BINARY / BINARY.PEEK / BINARY.SIZE sections, UID numbering implying the UID item
     * cmd_fidelity_append (+ _append_sem): mailbox, flag list, date-time, literal
     * legacy_*_counterexample / *_repaired: the three defects repaired for this property (F14 LIST pattern, F15 SAVE,
       F30 ON rule) violated it; the repaired writer does not.
 
-  Scope of the theorems vs. the oracle:
-    * map-ordered items (FETCH scalars, LIST RETURN (STATUS …), SEARCH RETURN) are proved for the writer's listed
-      order; order independence is proved for STATUS (`cmd_fidelity_status_any_order`) and validated on every run
-      for the others (the tie compares them as multisets);
-    * number sets: canonical sets (`SetOK`, what AddNum/AddRange/ParseSet build) in the specification's normal form
-      (`SetNF`); literal, non-canonical range lists a caller can write down are validated by the oracle only
-      (it compares sets by denotation);
+  ANY ORDER of the map-ordered items (`Delivers`: every permutation of every `Seg.anyOrder` segment):
+    * cmd_delivers_status, cmd_delivers_list (RETURN (STATUS …)), cmd_delivers_search (RETURN options),
+      cmd_delivers_fetch (scalar items); cmd_delivers_of_round_trip: the other families have one written form.
+
+  LITERAL NUMBER SETS (a caller-built `imap.SeqSet{{Start: 5, Stop: 3}, …}`: unsorted, overlapping, reversed):
+    * replayed: the client prints the ranges as given, the server's ParseSet adds them one by one;
+    * literal_set_denotation: the delivered set `delivSet rs` is canonical and denotes exactly the union of the
+      caller's ranges (via C15: foldl_applyOp / contains_eq_any / dynamic_eq_any); literal_set_canonical;
+    * cmd_fidelity_{copy,move,move_emulated,store,uid_expunge}_literal, cmd_delivers_fetch_literal,
+      cmd_delivers_search_literal (sets anywhere in the criteria tree): the session receives `delivN s`.
+      (`sem` normalises sets with its own interval normal form `normSet`; `normSet rs = delivSet rs` is not proved —
+      the oracle compares both through `normSet` on every run — so the literal theorems name `delivSet` and
+      characterise it by denotation, and the `sem` theorems assume the set is canonical and in normal form.)
+    * outside: the empty set and `{Start: 0, Stop: n≠0}` (printed as `*`, the stop is lost) — the client refuses
+      the first; the second is not a value the API builds (`inDomain` excludes both via `validNSet`).
+
+  The reader mirror and `/repo` main (decoder/framing repairs made for C04/C06 after this model was written):
+    * `Decoder.List` refuses the 1000th nested list and NOT/OR are refused at depth 1000: mirrored (`maxListDepth`,
+      `maxSearchKeyDepth`, tied to the source by Props/SourceFacts.cmd_grammar_limits; corpus cases at 999 / 1000
+      levels); `cmd_fidelity_search` therefore assumes `depth c < 1000`;
+    * a malformed literal header now stops the reader, `+` in a tag is refused, a non-synchronising literal on a
+      discarded line closes the connection, a refused synchronising literal is answered NO: none of these is
+      reachable from what the client writes within the domain (well-formed headers, tags `T<n>`, strings of at
+      most 4096 bytes) — the mirror does not model them and says `unmodelled` for longer strings;
+    * flags are canonicalised with ASCII case folding only (e3d01f5): what the mirror always did.
+
+  Scope:
     * the `Advertised` side condition of the design statement is not needed: the reader mirror does not consult
       capabilities, so the theorems hold for every configuration (MOVE is split by `cfg.hasMove`);
     * outside the model (oracle and tie only, or out of the property): strings above the server's 4096-byte limit,
-      mailbox names that are not valid UTF-8, CONDSTORE items, negative numbers.
+      criteria nested 1000 deep or more, mailbox names that are not valid UTF-8, CONDSTORE items, negative numbers.
 -/
 import GoImap.Spec.CmdGrammar
-import GoImap.Lemmas.CmdGrammarPermFetch
+import GoImap.Lemmas.CmdGrammarLitCmds
 namespace GoImap.C02
 open GoImap.CmdGrammar GoImap.CmdSpec GoImap.CmdLemmas
 
@@ -211,14 +231,15 @@ theorem cmd_fidelity_append_sem (cfg : Cfg) (m : List Nat) (flags : List Str) (t
 /-- SEARCH / UID SEARCH: every criteria tree — sequence and UID sets, the four date bounds (a since/before pair
     on consecutive days travels as ON), header fields (the five address/subject keys as their own keys), BODY,
     TEXT, flags and negated flags (system flags as their own keys, others as KEYWORD), LARGER, SMALLER, and
-    nested NOT / OR — with any return options, with or without CHARSET UTF-8.  `CritOK`: sets canonical,
+    nested NOT / OR — with any return options, with or without CHARSET UTF-8.  `CritOK` + `CritNF`: sets canonical,
     strings within the server's limit, flags the encoder accepts, sizes non-negative.  `depth c < 1000`: the
     decoder refuses to open the 1000th nested parenthesised list (and NOT/OR below depth 1000), so a deeper
     tree is answered NO — the nesting limit of the server, like the 4096-byte limit for strings. -/
 theorem cmd_fidelity_search (cfg : Cfg) (tag : Nat) (uid : Bool) (c : Crit) (o : Option SearchOpts) (hok : CritOK c)
-    (hd : depth c < maxListDepth) :
-    roundTrip {} cfg tag (.search uid c o) = .calls (sem cfg (.search uid c o)) :=
-  search_fidelity cfg tag uid c o hok hd
+    (hnf : CritNF c) (hd : depth c < maxListDepth) :
+    roundTrip {} cfg tag (.search uid c o) = .calls (sem cfg (.search uid c o)) := by
+  rw [← search_sem cfg uid c o hnf]
+  exact search_fidelity cfg tag uid c o hok hd
 
 /-- non-vacuity: `SMALLER 5 FROM "é" SINCE/BEFORE (one day) NOT (LARGER 1 \\Seen) OR (TEXT "x") (UID 1:3,7:*)` -/
 def sampleCrit : Crit :=
@@ -229,19 +250,32 @@ def sampleCrit : Crit :=
 
 example : depth sampleCrit < maxListDepth := by decide
 
+theorem sample_set_ok : SetOK (.set [⟨1, 3⟩, ⟨7, 0⟩]) ∧ SetNF (.set [⟨1, 3⟩, ⟨7, 0⟩]) ∧ SetLit (.set [⟨1, 3⟩, ⟨7, 0⟩]) := by
+  refine ⟨⟨?_, by decide⟩, ?_, ⟨by decide, ?_⟩⟩
+  · simp [NumSet.Canon, NumSet.CanonFrom, NumSet.Range.WF, NumSet.W]
+  · simp only [SetNF]; decide
+  · intro r hr
+    simp only [List.mem_cons, List.not_mem_nil, or_false] at hr
+    rcases hr with rfl | rfl <;> simp [RangeLit, NumSet.W]
+
 example : CritOK sampleCrit := by
-  have hset : SetOK (.set [⟨1, 3⟩, ⟨7, 0⟩]) ∧ SetNF (.set [⟨1, 3⟩, ⟨7, 0⟩]) := by
-    refine ⟨⟨?_, by decide⟩, ?_⟩
-    · simp [NumSet.Canon, NumSet.CanonFrom, NumSet.Range.WF, NumSet.W]
-    · simp only [SetNF]; decide
+  have hlit := sample_set_ok.2.2
   have hseen : FlagOK [92, 83, 101, 101, 110] := by show isValidFlag _ = true; decide
   simp only [sampleCrit, CritOK, NotsOK, OrsOK, and_true]
   refine ⟨⟨?_, ?_, ?_, ?_, ?_, ?_, ?_, ?_, ?_⟩, ⟨?_, ?_, ?_, ?_, ?_, ?_, ?_, ?_, ?_⟩, ⟨?_, ?_, ?_, ?_, ?_, ?_, ?_, ?_, ?_⟩,
     ⟨?_, ?_, ?_, ?_, ?_, ?_, ?_, ?_, ?_⟩⟩ <;>
     first
     | (intro x hx; simp at hx; done)
-    | (intro x hx; simp at hx; subst hx; first | exact hset | exact hseen | decide)
+    | (intro x hx; simp at hx; subst hx; first | exact hlit | exact hseen | decide)
     | decide
+
+example : CritNF sampleCrit := by
+  have hset := sample_set_ok
+  simp only [sampleCrit, CritNF, NotsNF, OrsNF, and_true]
+  refine ⟨⟨?_, ?_⟩, ⟨?_, ?_⟩, ⟨?_, ?_⟩, ⟨?_, ?_⟩⟩ <;>
+    first
+    | (intro x hx; simp at hx; done)
+    | (intro x hx; simp at hx; subst hx; exact ⟨hset.1, hset.2.1⟩)
 
 example : roundTrip {} {} 7 (.search true sampleCrit (some { count := true, save := true })) =
     .calls (sem {} (.search true sampleCrit (some { count := true, save := true }))) := by
@@ -304,9 +338,10 @@ theorem cmd_delivers_list (cfg : Cfg) (tag : Nat) (ref pat : List Nat) (o : List
 
 /-- SEARCH / UID SEARCH, any order of the RETURN options -/
 theorem cmd_delivers_search (cfg : Cfg) (tag : Nat) (uid : Bool) (c : Crit) (o : Option SearchOpts) (hok : CritOK c)
-    (hd : depth c < maxListDepth) :
-    Delivers {} cfg tag (.search uid c o) (sem cfg (.search uid c o)) :=
-  search_delivers cfg tag uid c o hok hd
+    (hnf : CritNF c) (hd : depth c < maxListDepth) :
+    Delivers {} cfg tag (.search uid c o) (sem cfg (.search uid c o)) := by
+  rw [← search_sem cfg uid c o hnf]
+  exact search_delivers cfg tag uid c o hok hd
 
 /-- FETCH / UID FETCH, any order of the scalar items (BODY / BODYSTRUCTURE, ENVELOPE, FLAGS, INTERNALDATE, RFC822.SIZE) -/
 theorem cmd_delivers_fetch (cfg : Cfg) (tag : Nat) (uid : Bool) (s : NSet) (o : FetchOpts)
@@ -332,5 +367,68 @@ example : Lin [.fixed (kw "STATUS INBOX ("), .anyOrder [kw "MESSAGES", kw "UNSEE
     (kw "STATUS INBOX (" ++ (joinSp [kw "UNSEEN", kw "MESSAGES"] ++ (kw ")" ++ []))) :=
   Lin.cons _ _ _ _ (Seg.Lin.fixed _) (Lin.cons _ _ _ _ (Seg.Lin.anyOrder _ _ (List.Perm.swap _ _ _))
     (Lin.cons _ _ _ _ (Seg.Lin.fixed _) Lin.nil))
+
+
+/-! ## number sets written down as literals
+
+  A caller may hand the client a set it did not build through `AddNum`/`AddRange`: `imap.SeqSet{{Start: 5, Stop: 3},
+  {Start: 1, Stop: 4}}` — ranges unsorted, overlapping, adjacent, bounds reversed.  Replayed against the real code
+  (the tie generates such sets on every run): the client prints the ranges as they are (`5:3,1:4`); the server's
+  `ParseSet` adds them one by one, so the session receives the canonical set `delivSet rs` (= `1:5`).
+  `SetLit`: non-empty, 32-bit bounds, `*` as a start only in the lone `*` (`{Start: 0, Stop: 5}` prints as `*`). -/
+
+/-- what the session receives is the canonical set denoting exactly the union of the caller's ranges: its members
+    are the numbers of the ranges (bounds in either order), and it contains `*` iff one of the ranges does -/
+theorem literal_set_denotation (rs : NumSet.Set) (h : LitOK rs) :
+    NumSetSpec.canonical (delivSet rs) = true ∧
+    (∀ q, 0 < q → q < NumSet.W → NumSet.contains (delivSet rs) q = rs.any fun r => NumSetSpec.memRange r.start r.stop q) ∧
+    NumSet.dynamic (delivSet rs) = rs.any fun r => NumSetSpec.starRange r.start r.stop :=
+  delivSet_denotes rs h
+
+/-- a canonical set is delivered as itself -/
+theorem literal_set_canonical (s : NSet) (h : SetOK s) : delivN s = s := delivN_canon s h
+
+example : LitOK [⟨5, 3⟩, ⟨1, 4⟩, ⟨9, 0⟩, ⟨7, 7⟩] ∧ delivSet [⟨5, 3⟩, ⟨1, 4⟩, ⟨9, 0⟩, ⟨7, 7⟩] = [⟨1, 5⟩, ⟨7, 7⟩, ⟨9, 0⟩] := by
+  refine ⟨⟨by decide, ?_⟩, by decide⟩
+  intro r hr
+  simp only [List.mem_cons, List.not_mem_nil, or_false] at hr
+  rcases hr with rfl | rfl | rfl | rfl <;> simp [RangeLit, NumSet.W]
+
+theorem cmd_fidelity_copy_literal (cfg : Cfg) (tag : Nat) (uid : Bool) (s : NSet) (m : List Nat) (hs : SetLit s) (hm : MailboxOK m) :
+    roundTrip {} cfg tag (.copy uid s m) = .calls [.copy uid (delivN s) (canonMailbox m)] :=
+  copy_reads cfg tag uid s _ m (setReads_lit s hs) hm
+
+theorem cmd_fidelity_move_literal (cfg : Cfg) (tag : Nat) (uid : Bool) (s : NSet) (m : List Nat) (hs : SetLit s) (hm : MailboxOK m)
+    (hmove : cfg.hasMove = true) :
+    roundTrip {} cfg tag (.move uid s m) = .calls [.move uid (delivN s) (canonMailbox m)] :=
+  move_reads cfg tag uid s _ m (setReads_lit s hs) hm hmove
+
+theorem cmd_fidelity_move_emulated_literal (cfg : Cfg) (tag : Nat) (uid : Bool) (s : NSet) (m : List Nat) (hs : SetLit s)
+    (hm : MailboxOK m) (hmove : cfg.hasMove = false) :
+    roundTrip {} cfg tag (.move uid s m) =
+      .calls [.copy uid (delivN s) (canonMailbox m), .store uid (delivN s) 1 true [deletedFlag],
+              .expunge (if uid && cfg.hasUidPlus then some (delivN s) else none)] :=
+  move_fallback_reads cfg tag uid s _ m (setReads_lit s hs) hm hmove
+
+theorem cmd_fidelity_store_literal (cfg : Cfg) (tag : Nat) (uid : Bool) (s : NSet) (op : Nat) (silent : Bool) (flags : List Str)
+    (hs : SetLit s) (hop : op ≤ 2) (hf : ∀ f ∈ flags, FlagOK f) :
+    roundTrip {} cfg tag (.store uid s op silent flags) = .calls [.store uid (delivN s) op silent (flags.map canonFlag)] :=
+  store_reads cfg tag uid s _ op silent flags (setReads_lit s hs) hop hf
+
+theorem cmd_fidelity_uid_expunge_literal (cfg : Cfg) (tag : Nat) (s : NSet) (hs : SetLit s) :
+    roundTrip {} cfg tag (.expunge (some s)) = .calls [.expunge (some (delivN s))] :=
+  uidExpunge_reads cfg tag s _ (setReads_lit s hs)
+
+/-- FETCH with a literal set, any order of the scalar items -/
+theorem cmd_delivers_fetch_literal (cfg : Cfg) (tag : Nat) (uid : Bool) (s : NSet) (o : FetchOpts) (hs : SetLit s) (ho : FetchOK o) :
+    Delivers {} cfg tag (.fetch uid s o) [.fetch uid (delivN s) { o with uid := o.uid || uid }] :=
+  fetch_reads cfg tag uid s _ o (setReads_lit s hs) ho
+
+/-- SEARCH whose criteria carry literal sets (anywhere in the tree), any order of the RETURN options: the criteria
+    arrive in canonical form with every set as delivered (`delivCrit`) -/
+theorem cmd_delivers_search_literal (cfg : Cfg) (tag : Nat) (uid : Bool) (c : Crit) (o : Option SearchOpts) (hok : CritOK c)
+    (hd : depth c < maxListDepth) :
+    Delivers {} cfg tag (.search uid c o) [.search uid (delivCrit c) (canonSearchOpts o)] :=
+  search_delivers cfg tag uid c o hok hd
 
 end GoImap.C02
